@@ -60,9 +60,11 @@ func contentsStr(m map[string]map[url.URL]float64) string {
 // waitForUriUpdates does in production) applies announcement updates. Node /n0 stays announced
 // throughout, so every resolution must succeed with a host that was announced at some point, and
 // every snapshot that was ever published must stay as it was when published.
-func runD2Scenario(r *hx.Result, rng *rand.Rand, procs, G, iters, updates int, counting bool) {
+// zeroWeights: every host is announced with weight 0 (the uniform choice among them is a branch of
+// its own in host selection).
+func runD2Scenario(r *hx.Result, rng *rand.Rand, procs, G, iters, updates int, counting bool, zeroWeights bool) {
 	fail := func(sig, op, impl, exp string) {
-		r.OracleFail(hx.Case{Sig: sig, Op: fmt.Sprintf("d2 procs=%d G=%d counting=%v %s", procs, G, counting, op), Impl: impl, Expected: exp})
+		r.OracleFail(hx.Case{Sig: sig, Op: fmt.Sprintf("d2 procs=%d G=%d counting=%v zeroWeights=%v %s", procs, G, counting, zeroWeights, op), Impl: impl, Expected: exp})
 	}
 	c := &d2.Client{}
 	svcData := []byte(`{"serviceName":"svc","clusterName":"` + d2Cluster + `","path":"/ctx","prioritizedSchemes":[]}`)
@@ -78,6 +80,9 @@ func runD2Scenario(r *hx.Result, rng *rand.Rand, procs, G, iters, updates int, c
 		for k := 0; k < 1+gen%3; k++ {
 			h := fmt.Sprintf("http://host-%s-%d-%d:80/ctx", strings.TrimPrefix(node, "/"), gen, k)
 			m[h] = float64(1 + (gen+k)%4)
+			if zeroWeights {
+				m[h] = 0
+			}
 			ever[h] = true
 		}
 		return m
